@@ -379,7 +379,7 @@ def body_report_history(k1, s1, d1, k2, s2, d2, kindf, text, start, end):
 def h_report_history(k1: int, s1: str, d1: int, k2: int, s2: str, d2: int, kindf: int, text: str,
                      start: int, end: int) -> bool:
     """
-    pre: 0 <= k1 <= 2 and 0 <= k2 <= 2 and 0 <= kindf <= 2 and start < end
+    pre: k1 == 0 and 0 <= k2 <= 1 and kindf == 0 and start < end
     pre: max(len(s1), len(s2), len(text)) <= ctx.b.slen
     post: _
     """
@@ -509,6 +509,7 @@ HARNESSES = [
                "thorough": [("comp-range", "prop-text"), ("prop-text", "comp-range"), ("comp", "prop-undef"),
                             ("prop-present", "comp-range"), ("prop-range", "prop-text"), ("comp-undef", "prop-text")]},
         bounds={"quick": {"slen": 2}, "thorough": {"slen": 3}}, budget={"quick": 100, "thorough": 420},
+        per_path_timeout={"quick": 60, "thorough": 120},
         describe="six calendar-query REPORTs (two filters, A A B B A B) on one long-lived store with indexing threshold 0: "
                  "every answer is exactly the matching set; part = (filter A shape, filter B shape)",
         encodes=["xandikos.caldav.CalendarQueryReporter.report", "xandikos.web.CalendarCollection.calendar_query",
